@@ -24,7 +24,7 @@ import nlgen
 from nlgen import Model, Rng
 
 PROP_MIN_THEOREMS = 53
-COMPOSE_MIN_THEOREMS = 8
+COMPOSE_MIN_THEOREMS = 11
 
 # every type except cones / unary-encoding marker: natively accepted in run A
 BASE_ACCEPT = ['LinConRange', 'LinConLE', 'LinConEQ', 'LinConGE',
